@@ -292,6 +292,15 @@ class ValidatedReadBucketProxy(log.PrefixingLogMixin):
             bh = dict(enumerate(blockhashes))
 
             try:
+                if not self.block_hash_tree[0]:
+                    # The root of the block hash tree is this share's leaf of
+                    # the share hash tree, which get_all_sharehashes() has
+                    # validated against the UEB: take it from there, not
+                    # from the share's own say-so.
+                    share_hash = self.share_hash_tree.get_leaf(self.sharenum)
+                    if not share_hash:
+                        raise hashtree.NotEnoughHashesError
+                    self.block_hash_tree.set_hashes({0: share_hash})
                 self.block_hash_tree.set_hashes(bh)
             except IndexError as le:
                 raise BadOrMissingHash(le)
